@@ -29,7 +29,7 @@ ASSUMPTIONS = [
     "tau-stored vectors are outside the representable domain)",
     "float64 tolerance 1e-9 of the natural scale (operands in the well-conditioned core)",
 ]
-DRAWS = {"quick": 6, "thorough": 60}
+DRAWS = {"quick": 10, "thorough": 300}
 SHARD_TIMEOUT = {"quick": 900, "thorough": 7200}
 
 
